@@ -170,12 +170,7 @@ def build():
     st.setProp(YowIqProtocolLayer.PROP_PING_INTERVAL, 0)
     st.setProp("profile", ST.StubProfile())
     mgr = ST.ManagerStub(True)
-    for l in insts:
-        if hasattr(l, "_manager"):
-            l._manager = mgr
-        for s in getattr(l, "sublayers", ()):
-            if hasattr(s, "_manager"):
-                s._manager = mgr
+    ST.wire_manager(st, mgr)
     return st, insts, locks, disp, net, noise, insts[-1]
 
 
@@ -325,12 +320,7 @@ def _no_session_manager(ctx, insts):
             self.calls.append(("decrypt", who))
             raise X.NoSessionException()
     mgr = NoSession(ctx, sessions=False, outcome="no-session")
-    for l in insts:
-        if hasattr(l, "_manager"):
-            l._manager = mgr
-        for s_ in getattr(l, "sublayers", ()):
-            if hasattr(s_, "_manager"):
-                s_._manager = mgr
+    ST.wire_manager(insts[0].getStack(), mgr)
 
 
 def h_fault(ctx, kind, n_ops):
@@ -356,13 +346,7 @@ def h_fault(ctx, kind, n_ops):
                     obs.append(("a later message of the same contact triggers a key request again", len(disp.sent) > n0))
                 except WouldBlock as e:
                     return obs + [("later-operation-blocks-forever (%s)" % e, False)]
-                ST_restore = ST.ManagerStub(True)
-                for l in insts:
-                    if hasattr(l, "_manager"):
-                        l._manager = ST_restore
-                    for s_ in getattr(l, "sublayers", ()):
-                        if hasattr(s_, "_manager"):
-                            s_._manager = ST_restore
+                ST.wire_manager(st, ST.ManagerStub(True))
             held = sorted(l.name for l in locks.values() if l.held)
             obs.append(("no-lock-held-after-failure (held: %s)" % held, not held))
         else:
